@@ -1,6 +1,11 @@
 #!/usr/bin/env python3
-"""self-test of pyexpr2lean (run by hand: /venv/bin/python vlib/selftest_pyexpr2lean.py; ~2 min): semantic edits change the generated text and break the tie theorem; cosmetic edits
-leave the generated text byte-identical.  Works on a scratch copy of /repo/src only."""
+"""self-test of pyexpr2lean and of the tie theorems (run by hand: /venv/bin/python vlib/selftest_pyexpr2lean.py; ~5 min):
+  SEM   semantic edits change the generated text and break an OBLIGATION (`*_eq_model_real` of GSV/Props/GenTie*.lean) or the translator;
+  COS   cosmetic edits leave the generated text byte-identical;
+  HARM  behaviour-preserving algebraic rewrites (harmless/H03b, H08b, H09b: regrouped products / quotients / roots) change the
+        generated text, break only INFORMATIVE theorems (the carrier-polymorphic `rfl` form in GenTie*Exact.lean) and leave every
+        obligation checking.
+Works on a scratch copy of /repo/src only; a summary table is printed at the end."""
 import os
 import re
 import shutil
@@ -12,8 +17,13 @@ import pyexpr2lean  # noqa: E402
 
 SCR = os.environ.get("PYEXPR_SCRATCH", "/tmp/pyexpr")   # scratch directory (created, not removed)
 LEAN = "/verif/lean"
-TIES = {"NormFormulas": ["GenTieNorm"], "CorFormulas": ["GenTieCor", "GenTieCorGamma"],
-        "TransformFormulas": ["GenTieTransform"], "SpectralFormulas": ["GenTieSpectral"]}
+# generated module -> (tie files holding the registered obligations, tie files holding informative theorems)
+TIES = {"NormFormulas": (["GenTieNorm"], ["GenTieNormExact"]),
+        "CorFormulas": (["GenTieCor", "GenTieCorGamma"], ["GenTieCorExact"]),
+        "TransformFormulas": (["GenTieTransform"], ["GenTieTransformExact"]),
+        "SpectralFormulas": (["GenTieSpectral"], ["GenTieSpectralExact"])}
+REGISTRY = {"NormFormulas": "C18", "CorFormulas": "C03", "TransformFormulas": "C19", "SpectralFormulas": "C04"}
+HARMLESS = [("H03b", ["CorFormulas", "SpectralFormulas"]), ("H08b", ["NormFormulas"]), ("H09b", ["TransformFormulas"])]
 
 
 def fresh():
@@ -40,46 +50,67 @@ def edit(rel, old, new, count=1, nth=0):
 
 
 def lean_check(gen_dir, ns):
-    """concatenate the (mutated) generated file and its tie files into one scratch module; return failing theorems"""
+    """concatenate the (mutated) generated file and its tie files into one scratch module (error recovery keeps later
+    theorems checkable); return (rc, failing obligations, failing informative theorems, other failing declarations)"""
+    import json
     gtxt = open(f"{gen_dir}/{ns}.lean").read()
-    ttxts = [open(f"{LEAN}/GSV/Props/{tie}.lean").read() for tie in TIES[ns]]
-    local = {f"GSV.Gen.{ns}"} | {f"GSV.Props.{t}" for t in TIES[ns]}
+    oblig, info = TIES[ns]
+    files = oblig + info
+    ttxts = [open(f"{LEAN}/GSV/Props/{tie}.lean").read() for tie in files]
+    local = {f"GSV.Gen.{ns}"} | {f"GSV.Props.{t}" for t in files}
     imports = []
     for txt in [gtxt] + ttxts:
         for m in re.finditer(r"^import\s+(\S+)", txt, re.M):
             if m.group(1) not in local and m.group(1) not in imports:
                 imports.append(m.group(1))
     strip = lambda t: "\n".join(l for l in t.split("\n") if not l.startswith("import "))
-    body = "".join(f"import {i}\n" for i in imports) + strip(gtxt) + "\n" + "\n".join(strip(t) for t in ttxts)
+    body = "".join(f"import {i}\n" for i in imports) + strip(gtxt) + "\n"
+    owner = {}                               # line number (1-based) -> tie file
+    for tie, t in zip(files, ttxts):
+        start = body.count("\n") + 1
+        body += strip(t) + "\n"
+        for ln in range(start, body.count("\n") + 1):
+            owner[ln] = tie
     os.makedirs(f"{SCR}/chk", exist_ok=True)
     path = f"{SCR}/chk/Mut_{ns}.lean"
     open(path, "w").write(body)
     p = subprocess.run(["lake", "env", "lean", path], cwd=LEAN, capture_output=True, text=True)
     out = p.stdout + p.stderr
     lines = body.split("\n")
-    failing = []
+    reg = json.load(open(f"/verif/vlib/registry/{REGISTRY[ns]}.json"))
+    ob_names = {t.split(".")[-2] + "." + t.split(".")[-1] for t in reg["theorems"]}
+    in_names = {t.split(".")[-2] + "." + t.split(".")[-1] for t in reg.get("informative", {}).get("theorems", [])}
+    f_ob, f_in, f_other = [], [], []
     for m in re.finditer(r"Mut_\w+\.lean:(\d+):\d+: error", out):
         ln = int(m.group(1))
         name = None
-        for k in range(ln - 1, -1, -1):
+        # an error reported at the doc comment of a declaration belongs to that declaration (scan forward), otherwise
+        # to the declaration the line lies in (scan backward)
+        doc = lines[ln - 1].lstrip().startswith("/--")
+        for k in (range(ln - 1, len(lines)) if doc else range(ln - 1, -1, -1)):
             mm = re.match(r"^(theorem|example|def|noncomputable def)\s*(\w+)?", lines[k])
             if mm:
                 name = "example" if mm.group(1) == "example" else mm.group(2)
                 break
-        if name not in failing:
-            failing.append(name)
-    return p.returncode, failing
+        q = f"{owner.get(ln, '?')}.{name}"
+        dst = f_ob if q in ob_names else f_in if q in in_names else f_other
+        if name not in dst:
+            dst.append(name)
+    return p.returncode, f_ob, f_in, f_other
 
 
 def main():
+    table = []
     fresh()
     base, broken0 = gen("base")
     assert not broken0, broken0
     for ns in TIES:
         if os.path.exists(f"{base}/{ns}.lean"):
             same = open(f"{base}/{ns}.lean").read() == open(f"{LEAN}/GSV/Gen/{ns}.lean").read()
-            rc, failing = lean_check(base, ns)
-            print(f"BASE  {ns}: scratch output identical to /verif/lean/GSV/Gen: {same}; tie file checks: rc={rc} failing={failing}")
+            rc, f_ob, f_in, f_other = lean_check(base, ns)
+            print(f"BASE  {ns}: scratch output identical to /verif/lean/GSV/Gen: {same}; tie files check: rc={rc} "
+                  f"failing obligations={f_ob} informative={f_in} other={f_other}")
+            table.append(("BASE " + ns, "unchanged tree", "all hold" if rc == 0 else "FAILS", f_ob, f_in))
 
     semantic = [
         ("S1 BoxCox._normalize: `- 1` -> `+ 1`", "NormFormulas", "normalizer/methods.py",
@@ -134,9 +165,13 @@ def main():
         changed = open(f"{d}/{ns}.lean").read() != open(f"{base}/{ns}.lean").read()
         others = [n for n in TIES if n != ns and os.path.exists(f"{d}/{n}.lean")
                   and open(f"{d}/{n}.lean").read() != open(f"{base}/{n}.lean").read()]
-        rc, failing = lean_check(d, ns)
+        rc, f_ob, f_in, f_other = lean_check(d, ns)
         print(f"SEM   {what}\n      generated text changed: {changed} (other files changed: {others}); translator broken: "
-              f"{[b['detail'][:90] for b in broken]}\n      tie file rc={rc}; failing: {failing}")
+              f"{[b['detail'][:90] for b in broken]}\n      tie files rc={rc}; failing obligations: {f_ob}; "
+              f"failing informative: {f_in}; other: {f_other}")
+        detected = bool(f_ob) or bool(broken)
+        table.append((what.split()[0], what.split(" ", 1)[1][:70], "DETECTED" if detected else "MISSED",
+                      f_ob + ["translator-broken"] * bool(broken), f_in))
 
     cosmetic = [
         ("K1 comments + blank lines inside BoxCox._normalize / Cubic.cor", [
@@ -157,6 +192,8 @@ def main():
              None, None, 0)]),
     ]
     for what, edits in cosmetic:
+        if only and "COS" not in only.split(","):
+            break
         fresh()
         for rel, old, new, nth in edits:
             if old is None:
@@ -179,6 +216,76 @@ def main():
         ident = {n: open(f"{d}/{n}.lean").read() == open(f"{base}/{n}.lean").read()
                  for n in TIES if os.path.exists(f"{d}/{n}.lean")}
         print(f"COS   {what}\n      generated files byte-identical: {ident}; broken: {broken}")
+        table.append((what.split()[0], what.split(" ", 1)[1][:70], "identical" if all(ident.values()) and not broken else "CHANGED", [], []))
+
+    # real-equal rewrites of single formulas (regrouping, x**2 -> x*x, Horner form, hoisting, sqrt of a product, reciprocal):
+    # the generated text changes, every obligation must keep checking (only informative theorems may fail)
+    real_equal = [
+        ("R1 Gaussian.cor: `h**2` -> `h * h`", "CorFormulas", "covmodel/models.py",
+         "return np.exp(-(h**2))", "return np.exp(-(h * h))", 0),
+        ("R2 Gaussian.calc_integral_scale: `len * sqrt(pi) / 2` -> `0.5 * sqrt(pi) * len`", "CorFormulas", "covmodel/models.py",
+         "return self.len_rescaled * np.sqrt(np.pi) / 2.0", "return 0.5 * np.sqrt(np.pi) * self.len_rescaled", 0),
+        ("R3 array_to_uniform: `sqrt(2 * var)` -> `sqrt(2) * sqrt(var)`", "TransformFormulas", "transform/array.py",
+         "0.5 * (1 + erf((field - mean) / np.sqrt(2 * var))) * (high - low) + low",
+         "low + (high - low) * (1 + erf((field - mean) / (np.sqrt(2) * np.sqrt(var)))) / 2", 0),
+        ("R4 BoxCox._normalize: `(x**l - 1) / l` -> `x**l / l - 1 / l`", "NormFormulas", "normalizer/methods.py",
+         "return (np.power(data, self.lmbda) - 1) / self.lmbda",
+         "return np.power(data, self.lmbda) / self.lmbda - 1 / self.lmbda", 0),
+        ("R5 Cubic.cor: polynomial in Horner form", "CorFormulas", "covmodel/models.py",
+         "return 1.0 - 7 * h**2 + 8.75 * h**3 - 3.5 * h**5 + 0.75 * h**7",
+         "return 1.0 + h**2 * (-7 + h * (8.75 + h**2 * (-3.5 + 0.75 * h**2)))", 0),
+        ("R6 Gaussian.spectral_density: `(l / 2 / sqrt(pi))**d` -> `(l / (2 sqrt(pi)))**d`, `(k l / 2)**2` -> `(k l)**2 / 4`",
+         "SpectralFormulas", "covmodel/models.py",
+         "return (self.len_rescaled / 2.0 / np.sqrt(np.pi)) ** self.dim * np.exp(\n            -((k * self.len_rescaled / 2.0) ** 2)\n        )",
+         "return np.exp(-((k * self.len_rescaled) ** 2) / 4.0) * (self.len_rescaled / (2.0 * np.sqrt(np.pi))) ** self.dim", 0),
+        ("R7 Spherical.cor: `1 - 1.5 h + 0.5 h**3` -> `1 - h (1.5 - 0.5 h h)`", "CorFormulas", "covmodel/models.py",
+         "return 1.0 - 1.5 * h + 0.5 * h**3", "return 1.0 - h * (1.5 - 0.5 * h * h)", 0),
+        ("R8 array_force_moments: `rescale * (field - mean_in) + mean` -> `mean + field * rescale - mean_in * rescale`",
+         "TransformFormulas", "transform/array.py",
+         "return rescale * (field - mean_in) + mean", "return mean + field * rescale - mean_in * rescale", 0),
+        ("R9 Exponential.spectral_rad_cdf dim 1: `arctan(r l) * 2 / pi` -> `2 / pi * arctan(l r)`", "SpectralFormulas",
+         "covmodel/models.py", "return np.arctan(r * self.len_rescaled) * 2.0 / np.pi",
+         "return 2.0 / np.pi * np.arctan(self.len_rescaled * r)", 0),
+        ("R10 YeoJohnson._derivative: operands commuted", "NormFormulas", "normalizer/methods.py",
+         "return (np.abs(data) + 1) ** (np.sign(data) * (self.lmbda - 1))",
+         "return (1 + np.abs(data)) ** ((self.lmbda - 1) * np.sign(data))", 0),
+        ("R11 Manly._normalize: `expm1(x l) / l` -> `(exp(l x) - 1) * (1 / l)`", "NormFormulas", "normalizer/methods.py",
+         "return np.expm1(np.multiply(data, self.lmbda)) / self.lmbda",
+         "return (np.exp(self.lmbda * data) - 1) * (1 / self.lmbda)", 0),
+        ("R12 Matern.spectral_density nu>20: `sqrt(1 + x/nu)**(-d)` -> `1 / (1 + x/nu)**(d/2)`", "SpectralFormulas", "covmodel/models.py",
+         "                * np.sqrt(1 + x / self.nu) ** (-self.dim)\n", "                / (1 + x / self.nu) ** (self.dim / 2.0)\n", 0),
+    ]
+    for what, ns, rel, old, new, nth in real_equal:
+        if only and "REAL" not in only.split(",") and what.split()[0] not in only.split(","):
+            continue
+        fresh()
+        edit(rel, old, new, nth=nth)
+        d, broken = gen("real")
+        changed = open(f"{d}/{ns}.lean").read() != open(f"{base}/{ns}.lean").read()
+        rc, f_ob, f_in, f_other = lean_check(d, ns)
+        print(f"REAL  {what}\n      generated text changed: {changed}; translator broken: {broken}; failing obligations: {f_ob}; "
+              f"failing informative: {f_in}; other: {f_other}")
+        table.append((what.split()[0], what.split(" ", 1)[1][:70],
+                      "obligations hold" if changed and not f_ob and not broken else "OBLIGATION BROKEN" if changed else "TEXT UNCHANGED", f_ob, f_in))
+
+    # behaviour-preserving algebraic rewrites made by independent agents (harmless/<id>/patch.diff)
+    for hid, nss in HARMLESS:
+        if only and "HARM" not in only.split(","):
+            break
+        fresh()
+        r = subprocess.run(["patch", "-p1", "-s", "-d", SCR, "-i", f"/verif/harmless/{hid}/patch.diff"], capture_output=True, text=True)
+        assert r.returncode == 0, r.stdout + r.stderr
+        d, broken = gen("harm")
+        for ns in nss:
+            changed = open(f"{d}/{ns}.lean").read() != open(f"{base}/{ns}.lean").read()
+            rc, f_ob, f_in, f_other = lean_check(d, ns)
+            print(f"HARM  {hid} {ns}: generated text changed: {changed}; translator broken: {broken}; failing obligations: {f_ob}; "
+                  f"failing informative: {f_in}; other: {f_other}")
+            table.append((hid, f"harmless rewrite, {ns}", "obligations hold" if not f_ob and not broken else "OBLIGATION BROKEN", f_ob, f_in))
+
+    print("\n%-6s %-72s %-18s %s" % ("id", "edit", "result", "failing obligations | failing informative"))
+    for i, w, r, fo, fi in table:
+        print("%-6s %-72s %-18s %s | %s" % (i, w, r, ",".join(map(str, fo)) or "-", ",".join(map(str, fi)) or "-"))
 
 
 if __name__ == "__main__":
